@@ -257,6 +257,21 @@ class UIter:
         return f'UIter({self._d!r})'
 
 
+def _mkdup():
+    class Dup:
+        def __repr__(self):
+            return 'Dup()'
+    return Dup
+
+
+# two distinct classes with the same __name__/__qualname__/__module__, hence the same repr()
+DupA = _mkdup()
+DupB = _mkdup()
+# two distinct type variables with the same name, hence the same repr()
+TSi = TypeVar('TS', bound=int)
+TSs = TypeVar('TS', bound=str)
+
+
 class Obj:
     """Plain attribute bag: Obj(x=1, y=Obj(...))."""
     def __init__(self, **kw):
@@ -271,5 +286,5 @@ NAMESPACE = {
     'K': K, 'K2': K2, 'Other': Other, 'E': E, 'IE': IE, 'NL': NL, 'NF': NF, 'TF': TF, 'TL': TL, 'TU': TU, 'N': N, 'T': T, 'TB': TB, 'TC': TC, 'P': P, 'PImpl': PImpl,
     'G': G, 'GL': GL, 'USeq': USeq, 'UMSeq': UMSeq, 'UMap': UMap, 'UMMap': UMMap, 'USet': USet,
     'UMSet': UMSet, 'UColl': UColl, 'URev': URev, 'UCont': UCont, 'UIter': UIter,
-    'Obj': Obj, 'typing': typing, 'collections': collections, 'cabc': cabc,
+    'Obj': Obj, 'DupA': DupA, 'DupB': DupB, 'TSi': TSi, 'TSs': TSs, 'typing': typing, 'collections': collections, 'cabc': cabc,
 }
